@@ -149,8 +149,12 @@ def run_one(sc, root, helper, tacd_dir):
            "endpoint": [{"name": "ep1", "url": ca.base + "/directory", "tos_agreed": True}],
            "hook": [post], "account": [acct], "certificate": [cert]}
     cfg_path = cfggen.write(os.path.join(d, "acmed.toml"), cfg)
-    denv = {"PATH": tacd_dir + os.pathsep + os.environ.get("PATH", ""), "GIT_CONFIG_GLOBAL": "/dev/null",
-            "GIT_CONFIG_SYSTEM": "/dev/null"}
+    # (an empty regular file of our own, not /dev/null: git rewrites a configuration file by renaming
+    # a lock file over it)
+    gitcfg = os.path.join(d, "gitconfig-empty")
+    open(gitcfg, "w").close()
+    denv = {"PATH": tacd_dir + os.pathsep + os.environ.get("PATH", ""), "GIT_CONFIG_GLOBAL": gitcfg,
+            "GIT_CONFIG_SYSTEM": gitcfg}
     dmn = flow.Daemon(cfg_path, env=denv)
     flow.wait_for(lambda: len(flow.post_ops(log)) >= sc["n"] or not dmn.alive(), 40 + 10 * sc["n"])
     rc = dmn.stop()
@@ -182,7 +186,7 @@ def run_one(sc, root, helper, tacd_dir):
         for dd in (g["accounts_directory"], g["certificates_directory"]):
             names = [n for n in (os.listdir(dd) if os.path.isdir(dd) else []) if n != ".git"]
             stored += [[dd, n] for n in names]
-            p = subprocess.run(["git", "-C", dd, "log", "--format=%s"], capture_output=True, text=True)
+            p = subprocess.run(["git", "-C", dd, "log", "--format=%s"], capture_output=True, text=True, stdin=subprocess.DEVNULL)
             glog.append([dd, [l for l in p.stdout.split("\n") if l]])
         res["git"] = {"stored": stored, "log": glog}
     # kill any responder a failed run may have left behind (do not leak processes out of the check)
